@@ -28,6 +28,9 @@ pub fn data_classes(rng: &mut Rng, len: usize) -> Vec<(&'static str, Vec<u8>)> {
 fn err_kind(e: &Error) -> &'static str {
     match e {
         Error::CompressionBomb { .. } => "bomb",
+        // raised by the progress monitor after a codec stage ran (garbage input decoding to more than declared):
+        // the request got past validation, which is all `c03pre` asks
+        Error::ResourceExhaustion(m) if m.contains("Decompression size limit") => "codec",
         Error::ResourceExhaustion(_) => "exhaustion",
         Error::MaliciousContent(_) => "malicious",
         Error::Compression(m) if m.contains("Empty") => "empty",
@@ -100,6 +103,49 @@ pub fn run(ctx: &mut Ctx) {
                 if (m == flags::HUFFMAN || m == flags::IMPLODE || m == flags::PKWARE) && len > 70000 { continue; }
                 one(ctx, class, d, m, mname);
             }
+        }
+    }
+    // in-tree sparse compressor against its Lean model (`sparseCompress`), byte for byte, plus the round trip
+    {
+        let mut inputs: Vec<Vec<u8>> = vec![];
+        // every string over {0, x} up to length 10 (the scan, the three-zero rule and the tail flush are all decided here)
+        let upto = if ctx.thorough { 12 } else { 10 };
+        for len in 0..=upto { for bits in 0u32..(1 << len) { inputs.push((0..len).map(|i| if bits >> i & 1 == 1 { 0x41 + i as u8 } else { 0 }).collect()); } }
+        let zr = [1usize, 2, 3, 4, 5, 0x7f, 0x80, 0x81, 0x82, 0x83, 0x84, 0x85, 0x86, 0x87, 0x88, 0x104, 0x105, 0x107, 0x108, 0x10a, 0x18b];
+        let lr = [1usize, 2, 3, 4, 0x7e, 0x7f, 0x80, 0x81, 0x82, 0x83, 0x100, 0x101, 0x102, 0x103, 0x181, 0x182];
+        for _ in 0..(if ctx.thorough { 3000 } else { 400 }) {
+            let mut d = vec![];
+            let runs = ctx.rng.range(1, 6);
+            let mut zero_first = ctx.rng.below(2) == 0;
+            for _ in 0..runs {
+                if zero_first { let n = *ctx.rng.pick(&zr); d.extend(std::iter::repeat(0u8).take(n)); }
+                else {
+                    let n = *ctx.rng.pick(&lr);
+                    let start = d.len();
+                    for _ in 0..n { d.push(ctx.rng.next() as u8 | 1); }
+                    // isolated zeros (one or two in a row) stay inside the literal chunk
+                    for _ in 0..ctx.rng.below(3) { if n > 3 { let k = start + ctx.rng.below(n as u64 - 2) as usize; d[k] = 0; if ctx.rng.below(2) == 0 { d[k + 1] = 0; } } }
+                }
+                zero_first = !zero_first;
+            }
+            inputs.push(d);
+        }
+        for d in &inputs {
+            let r = std::panic::catch_unwind(|| compress(d, flags::SPARSE));
+            let ans = match &r {
+                Err(_) => "panic".to_string(),
+                Ok(Err(_)) => "err".to_string(),
+                Ok(Ok(c)) => if c.len() < d.len() && c[0] == flags::SPARSE { hex(&c[1..]) } else { "raw".to_string() },
+            };
+            ctx.out.case(&format!("c03sparsec {}", hex(d)), &ans);
+            ctx.out.stat(&format!("c03.sparsec.{}", if ans == "raw" { "raw" } else if ans.len() > 5 { "framed" } else { &ans }));
+            if let Ok(Ok(c)) = &r {
+                ctx.out.oracle(c.len() <= d.len(), "stored-form-expands", &format!("sparse len={}", d.len()));
+                if c.len() < d.len() {
+                    let back = std::panic::catch_unwind(|| decompress(&c[1..], flags::SPARSE, d.len()));
+                    ctx.out.oracle(matches!(&back, Ok(Ok(o)) if o == d), "roundtrip-mismatch-sparse", &format!("structured input len={} {}", d.len(), hex(&d[..d.len().min(40)])));
+                } else { ctx.out.oracle(c == d, "raw-form-differs", &format!("sparse len={}", d.len())); }
+            } else { ctx.out.oracle(false, "compress-fails-sparse", &format!("structured input len={}", d.len())); }
         }
     }
     // selectors: which ones the compressor supports at all
